@@ -120,16 +120,16 @@ CHECKS = {
             "expiry notifications are compared for consistency (pruning is lazy, at the next query); ties in refresh time in any order",
             "E3+E4+E5", "DESIGN.md#c18"),
     "C17": ("model_checking",
-            "explicit-state BFS over client/server event histories on the real threaded, thread-pool and one-shot servers running on a simulated socket layer under the controlled scheduler, with descriptor/table/hook/thread accounting after every event; schedule exploration of connect racing close",
+            "explicit-state BFS over client/server event histories on the real threaded, thread-pool, one-shot and forking servers running on a simulated socket layer under the controlled scheduler, with descriptor/table/hook/thread accounting after every event; schedule exploration of connect racing close",
             "All histories up to the depth bound over connect / call / graceful close / abrupt close by <= 3 clients and server.close() (twice) at any point, over TCP and unix sockets, each driven to quiescence; "
             "after close every client sees EOFError promptly, hooks ran once, no descriptor, table entry or server thread is left; a connect racing close() is explored over schedules with <= 2 (quick) / 3 (thorough) preemptions at system-call granularity.",
-            "SimOS models loopback sockets/poll/queue at the level rpyc uses them (kernel-conformance selftest); the forking server is NOT covered: fork, descriptor inheritance and SIGCHLD are not modelled",
+            "SimOS models loopback sockets/poll/queue and fork/waitpid/SIGCHLD with per-process descriptor tables at the level rpyc uses them (kernel-conformance selftest against the real kernel, 45 observations); the forking server is explored on the emulated fork (children are logical threads with their own descriptor table; memory is not copied, which is sound here because a child only touches its own connection) and its close() is a recorded known finding (cannot reach the children)",
             "E1+E3+E4", "DESIGN.md#c17"),
     "C16": ("model_checking",
-            "enumeration of hostile client scripts x server kinds x authentication x good-client counts on the real threaded and thread-pool servers over a simulated socket layer, plus exhaustive single-deviation schedule exploration (system-call and line granularity in the connection set-up code)",
-            "Every hostile script (malformed/garbage/absurd/corrupt-zlib packets, a valid request cut at every byte offset, disconnects, failed and stalled authentication, stalls, bursts) is played against ThreadedServer and ThreadPoolServer with and without an authenticator while 1-2 good clients work; "
+            "enumeration of hostile client scripts x server kinds x authentication x good-client counts on the real threaded, thread-pool and forking servers over a simulated socket layer, plus exhaustive single-deviation schedule exploration (system-call and line granularity in the connection set-up code)",
+            "Every hostile script (malformed/garbage/absurd/corrupt-zlib packets, a valid request cut at every byte offset, disconnects, failed and stalled authentication, stalls, bursts) is played against ThreadedServer, ThreadPoolServer and ForkingServer with and without an authenticator while 1-2 good clients work; "
             "oracle: good clients' results, a NEW client is served afterwards, per-connection service instance/state/references/credentials, identifiers of one connection refused on another. All schedules with one deviation from the default are explored for representative scripts and for two clients authenticating concurrently.",
-            "hostile bytes are a structured alphabet; pool sized above the number of never-finishing clients; forking server NOT covered (no process model); one recorded known finding (pool + client silent during authentication)",
+            "hostile bytes are a structured alphabet; pool sized above the number of never-finishing clients; the forking server runs on the emulated fork (default schedule only); recorded known findings: pool + client silent during authentication, pool drops a newcomer whose descriptor number was just recycled",
             "E1+E4+E5", "DESIGN.md#c16"),
     "C02": ("model_checking",
             "explicit-state BFS over canonical target states x a ~170-operation alphabet per target kind, each (state, operation) applied through a proxy on a real connection pair and directly on a twin; exhaustive buffered-iteration parameter sweep",
